@@ -271,6 +271,84 @@ def check_function(rep, f, kids, kind, reflexive, control=False):
     return nv
 
 
+def always_checked(rep):
+    """CHECKS-ALWAYS-RUN: (a) in the two attempt functions of the MTest solver every path to a return that is not a failure
+    (a literal {false, ...} or a variable whose .first was decided false) passes through Study::postConvergence, which runs the
+    @Test checks: an accepted step is never left unchecked; (b) MTest::postConvergence calls check on every registered test,
+    unconditionally."""
+    us = [os.path.join(REPO, "mtest/src", x) for x in ("GenericSolver.cxx", "MTest.cxx")]
+    d = cfgdump(us, os.path.join(OUT, "C51", "solver"), funcs=r"^mtest::(iterate2?|MTest::postConvergence)$")
+    funcs = [f for f in load_functions(d) if f.parent is None and f.entry is not None]
+    its = [f for f in funcs if f.qname in ("mtest::iterate", "mtest::iterate2")]
+    if len(its) != 2:
+        raise AnalysisBroken("mtest::iterate / iterate2 not found (%d)" % len(its))
+    for f in its:
+        def atom(f_, s):
+            n = f_.stmts.get(s)
+            if n is not None and n["k"] == "MemberExpr" and n.get("member") == "first":
+                return (("ok", f_.text(f_.kids(s)[0])), False)
+            return None
+        bad = []
+        nret = [0]
+
+        def el(st, b, i, e):
+            if "s" not in e:
+                return (st,)
+            s = e["s"]
+            n = f.stmts[s]
+            facts, done = st
+            if n["k"] == "CXXMemberCallExpr" and (n.get("callee") or "").endswith("::postConvergence"):
+                return ((facts, True),)
+            if n["k"] == "ReturnStmt":
+                nret[0] += 1
+                if not done:
+                    v = f.kids(s)
+                    t = f.text(v[0]) if v else ""
+                    refs = sorted(set(f.stmts[x]["name"] for x in f.walk(s) if f.stmts[x]["k"] == "DeclRefExpr" and f.stmts[x].get("local")))
+                    if len(refs) == 1:
+                        t = refs[0]         # 'return r;' (copy of a local result)
+                    fx = dict(facts)
+                    lit = [f.stmts[x].get("value") for x in f.walk(s) if f.stmts[x]["k"] == "CXXBoolLiteralExpr"]
+                    failure = (lit[:1] == [False] or lit[:1] == [0] or str(lit[:1]) in ("['false']",)) or fx.get(("ok", t)) is False
+                    if not failure:
+                        bad.append((s, t))
+            return (st,)
+
+        def ed(st, b, succ, pol):
+            facts, done = st
+            fx = branch(f, b, pol, dict(facts), atom)
+            if fx is None:
+                return ()
+            return ((tuple(sorted(fx.items(), key=repr)), done),)
+        forward(f, (((), False),), el, ed)
+        rep.count("return statements of the attempt functions", nret[0])
+        if bad:
+            s, t = bad[0]
+            rep.fail("CHECKS-ALWAYS-RUN@%s" % f.qname, "%s: %s can return %s (not a failure) on a path that does not call Study::postConvergence: "
+                     "the step is accepted and written to the output although its @Test checks did not run" % (f.short_loc(s).replace(REPO + "/", ""), f.qname, t))
+        else:
+            rep.ok("%s: every return that is not a failure passes through Study::postConvergence (the @Test checks)" % f.qname)
+    pc = [f for f in funcs if f.qname == "mtest::MTest::postConvergence"]
+    if not pc:
+        raise AnalysisBroken("MTest::postConvergence not found")
+    g = pc[0]
+    loops = [(s, n) for s, n in g.stmts.items() if n["k"] == "CXXForRangeStmt"]
+    okl = False
+    for s, n in loops:
+        body = g.kids(s)[-1]
+        calls = [g.stmts[x] for x in g.walk(body) if g.stmts[x]["k"] == "CXXMemberCallExpr" and (g.stmts[x].get("callee") or "").endswith("::check")]
+        skips = [g.stmts[x]["k"] for x in g.walk(body) if g.stmts[x]["k"] in ("IfStmt", "BreakStmt", "ContinueStmt", "ReturnStmt", "ConditionalOperator")]
+        rng = g.text(g.kids(s)[0]) if g.kids(s) else ""
+        if calls and not skips and "tests" in " ".join(g.text(x) for x in g.walk(s) if g.stmts[x]["k"] == "MemberExpr"):
+            okl = True
+    if okl:
+        rep.ok("MTest::postConvergence calls check on every registered test, unconditionally")
+    else:
+        rep.fail("CHECKS-ALWAYS-RUN@mtest::MTest::postConvergence", "MTest::postConvergence does not call check on every element of this->tests "
+                 "unconditionally: a requested comparison can be skipped")
+    rep.floor("return statements of the attempt functions", 6)
+
+
 def run(tier):
     rep = Report("C51", tier, "other", RULE)
     units = sorted(set(os.path.join(REPO, v[0]) for v in TARGETS.values()))
@@ -288,6 +366,7 @@ def run(tier):
         rep.count("verdict functions")
         check_function(rep, f, kids.get((f.unit, f.id), []), kind, refl)
     rep.floor("verdict functions", 6)
+    always_checked(rep)
     # positive control: a copy of the classical 'err > prec' loop must be reported, its '!(err <= prec)' twin must not
     dc = cfgdump([ctl], os.path.join(OUT, "C51", "ctl"), funcs=r"^verif_ctl::", flags_for=lambda u: (header_flags(), VERIF))
     cf = load_functions(dc)
